@@ -234,7 +234,7 @@ def gen(rng, tier):
     for c in _gen_core(rng, tier):
         yield c
     from driver import cligen
-    for c in cligen.cases(rng, ['sites', 'split', 'extract'], 40 if tier == "quick" else 400):
+    for c in cligen.cases(rng, ['sites', 'subsites', 'split', 'extract'], 40 if tier == "quick" else 400):
         yield c
     for _ in range(2 if tier == "quick" else 20):
         for argv in MULTI_CMDS:
